@@ -83,6 +83,8 @@ ImageRules == {
   R("img.image", "additional_variants", "none", "reject"), R("img.image", "additional_variants", "str", "reject"),
   R("img.image", "additional_variants", "tuple", "na"),
   R("img.plainimage", "additional_variants", "nonempty", "reject"),
+  \* the object was written successfully first; then a container attribute is edited IN PLACE (no assignment happens)
+  R("img.image", "checksums", "inplace_clear", "na"), R("img.plainimage", "additional_variants", "inplace_append", "na"),
   \* document-only: one identifying attribute replaced so that the record collides (different checksums) with an image
   \* listed under ANOTHER arch key - the manifest-level uniqueness rule
   R("img.twinimage", "identity", "doc:collide", "reject") }
@@ -125,7 +127,9 @@ DiRules == {
   R("di.discinfo", "description", "bytes", "na"), R("di.discinfo", "arch", "bytes", "na"),      \* text fields take text only
   R("di.discinfo", "disc_numbers", "emptylist", "na"), R("di.discinfo", "disc_numbers", "none", "na"),
   R("di.discinfo", "disc_numbers", "str", "reject"), R("di.discinfo", "disc_numbers", "tuple", "na"),
-  R("di.discinfo", "disc_numbers", "list_of_text", "na"), R("di.discinfo", "disc_numbers", "list_of_float", "na") }
+  R("di.discinfo", "disc_numbers", "list_of_text", "na"), R("di.discinfo", "disc_numbers", "list_of_float", "na"),
+  \* the bad element compares equal to a legal number listed before it (1 == 1.0 == True)
+  R("di.discinfo", "disc_numbers", "list_int_float", "na"), R("di.discinfo", "disc_numbers", "list_int_bool", "na") }
 Rules == ComposeRules \cup CiRules \cup ImageRules \cup TiRules \cup DiRules
 
 \* node kinds a dump of each format visits and validates (composeinfo.py / images.py / treeinfo.py serialize chains)
